@@ -114,7 +114,8 @@ class Recorder:
                 except Exception as ex:
                     if r is not None:
                         r['script'].append({'st': int(self_.state), 'keys': self_.peer_crypto is not None, 'peer': spi_int(self_.peer_spi), 'ok': False,
-                                            'next': None, 'reset': False, 'exc': type(ex).__name__, 'handler': name})
+                                            'next': None, 'reset': bool(is_response and before_id != 0 and self_.my_msg_id == 0),
+                                            'exc': type(ex).__name__, 'handler': name})
                     raise
                 if r is not None:
                     nxt = None
